@@ -83,14 +83,39 @@ func verifSeam_rawTCPFlags(o *tcpFlagsCmdOpts) error {
 	o.tcpFlags = []string{"fin", "ack"}
 	return nil
 }
-func verifSeam_rawUDP(o *udpCmdOpts) error   { wireCommon(&o.packetScanCmdOpts); return nil }
-func verifSeam_rawICMP(o *icmpCmdOpts) error { wireCommon(&o.packetScanCmdOpts); return nil }
+func verifSeam_rawUDP(o *udpCmdOpts) error {
+	wireCommon(&o.packetScanCmdOpts)
+	if wireSetUDP != nil {
+		wireSetUDP(o)
+	}
+	return nil
+}
+func verifSeam_rawICMP(o *icmpCmdOpts) error {
+	wireCommon(&o.packetScanCmdOpts)
+	if wireSetICMP != nil {
+		wireSetICMP(o)
+	}
+	return nil
+}
+
+// option values as the raw-option parser would have left them (set inside the parse seam)
+var (
+	wireSetUDP  func(o *udpCmdOpts)
+	wireSetICMP func(o *icmpCmdOpts)
+)
 func verifSeam_rawARP(o *arpCmdOpts) error   { wireCommon(&o.packetScanCmdOpts); return nil }
+
+// wireGateway: the harness wants probes to be built (the ARP cache was parsed, a gateway MAC is known)
+var wireGateway bool
 
 func wireParsed(o *ipScanCmdOpts) {
 	o.scanRange = wireRange
 	o.vpnMode = wireVPN
 	o.logger = wireLogger
+	if wireGateway && !wireVPN {
+		o.cache = arp.NewCache()
+		o.gatewayMAC = net.HardwareAddr{0x10, 0x11, 0x12, 0x13, 0x14, 0x15}
+	}
 }
 
 func verifSeam_optTCP(o *tcpCmdOpts, name string, args []string) error {
@@ -368,6 +393,80 @@ func VerifH_C19_wireARPStream() {
 				seen[byte(t)] = true
 			}
 		}
+	}
+	verifCover("done")
+}
+
+// VerifH_C05_wireFields: the udp (CMD 1) and icmp (CMD 0) commands with solver-chosen parsed
+// option values (TTL, IP flags incl. none, ICMP type/code, a payload of 0..2 bytes): RunE is
+// interpreted up to the engine start and one probe is pulled out of the pipeline the command
+// built (conf.scanMethod.Packets): the frame carries exactly the requested values.
+func VerifH_C05_wireFields() {
+	wireReset()
+	wireRec, wirePerr = nil, nil
+	udpCmd := verifParam("CMD", 0) == 1
+	ttl, flags := ndU8("ttl"), ndU8("ipflags")&7
+	typ, code := ndU8("icmpType"), ndU8("icmpCode")
+	plen := int(verifConcretize(uint64(ndU8("payloadLen") % 3)))
+	payload := ndBytes("payload", 2)[:plen]
+	wireGateway = true
+	defer func() { wireGateway = false }()
+	wireSetUDP = func(o *udpCmdOpts) { o.ipTTL, o.ipFlags, o.udpPayload = ttl, flags, payload }
+	wireSetICMP = func(o *icmpCmdOpts) {
+		o.ipTTL, o.ipFlags, o.icmpType, o.icmpCode, o.icmpPayload = ttl, flags, typ, code, payload
+	}
+	var frames [][]byte
+	wireProbe = func(conf *packetScanConfig) {
+		ctx, cancel := context.WithCancel(context.Background())
+		defer cancel()
+		r := conf.scanRange
+		r.DstSubnet = &net.IPNet{IP: net.IPv4(192, 168, 0, 7).To4(), Mask: net.CIDRMask(32, 32)}
+		r.Ports = []*scan.PortRange{{StartPort: 53, EndPort: 53}}
+		for p := range conf.scanMethod.Packets(ctx, &r) {
+			verifAssert(p.Err == nil && p.Buf != nil, "probe could not be built")
+			if p.Err == nil && p.Buf != nil {
+				frames = append(frames, append([]byte{}, p.Buf.Bytes()...))
+			}
+		}
+	}
+	var err error
+	if udpCmd {
+		c := newUDPCmd()
+		err = c.cmd.RunE(c.cmd, nil)
+	} else {
+		c := newICMPCmd()
+		err = c.cmd.RunE(c.cmd, nil)
+	}
+	wireProbe, wireSetUDP, wireSetICMP = nil, nil, nil
+	verifAssert(err == nil, "command failed before the engine start")
+	verifAssert(len(frames) == 1, "a single-address (single-port) target does not yield exactly one probe")
+	if len(frames) != 1 {
+		return
+	}
+	b := frames[0]
+	off := 14
+	if wireVPN {
+		off = 0
+	}
+	verifAssert(len(b) >= off+28, "probe shorter than its headers")
+	if len(b) < off+28 {
+		return
+	}
+	verifAssert(b[off+8] == ttl, "--ttl does not reach the probe")
+	verifAssert(b[off+6]>>5 == flags, "--ipflags does not reach the probe exactly (an empty list means no flag)")
+	verifAssert(b[off+16] == 192 && b[off+17] == 168 && b[off+18] == 0 && b[off+19] == 7, "probe not addressed to the target")
+	if !wireVPN {
+		verifAssert(b[0] == 0x10 && b[5] == 0x15 && b[12] == 0x08 && b[13] == 0, "probe not sent to the gateway MAC as an IPv4 frame")
+	}
+	t := off + 20
+	if udpCmd {
+		verifAssert(b[off+9] == 17 && b[t+2] == 0 && b[t+3] == 53, "not a UDP probe to the requested port")
+	} else {
+		verifAssert(b[off+9] == 1 && b[t] == typ && b[t+1] == code, "--type/--code do not reach the probe")
+	}
+	verifAssert(len(b) >= t+8+plen, "payload missing")
+	for i := 0; i < plen && t+8+i < len(b); i++ {
+		verifAssert(b[t+8+i] == payload[i], "payload bytes are not the requested ones")
 	}
 	verifCover("done")
 }
